@@ -213,9 +213,12 @@ class OutlierRecorder:
         self.cls._fit_outlier_detection_model = self.orig
 
 
-def run_pack(pack, estimator, seed, pis=(0.7, 0.9), extra_mp=None, client=None, ballast_rep=26, ballast_non=3, shuffle=True, high_pev=False, **kw):
+def run_pack(pack, estimator, seed, pis=(0.7, 0.9), extra_mp=None, client=None, ballast_rep=26, ballast_non=3, shuffle=True, high_pev=False, frames=None, **kw):
     sc0 = pack[0]
-    pre, cur, meta = materialise(pack, seed, ballast_rep=ballast_rep, ballast_non=ballast_non, shuffle=shuffle, high_pev=high_pev)
+    if frames is not None:
+        pre, cur, meta = frames
+    else:
+        pre, cur, meta = materialise(pack, seed, ballast_rep=ballast_rep, ballast_non=ballast_non, shuffle=shuffle, high_pev=high_pev)
     setup = EST_SETUP[estimator]
     office = "H" if sc0["districtOffice"] else "G"
     gut = "precinct-district" if sc0["districtGut"] else "precinct"
@@ -618,3 +621,26 @@ def perturb_traces(pack0, estimator, seed, pis, rnd, **kw):
         out.append({"kind": "pair", "sc": a["sc"], "u": ch[0], "delta": (ch[2] - ch[1]) * scale, "obs0": a["obs"], "obs1": b["obs"],
                     "unit_kind": a["sc"]["units"][ch[0] - 1]["kind"]})
     return out
+
+
+def two_poll_traces(pack, estimator, seed, pis):
+    """Two polls of one election night on the SAME feed frame object, updated in place between the polls (as a caller
+    that keeps its results frame would do).  Returns the traces of the second poll: its tables must be the ledger of
+    the second feed."""
+    import copy
+
+    pre, cur, meta = materialise(pack, seed, shuffle=False)
+    run_pack(pack, estimator, seed, pis=pis, frames=(pre, cur, meta), copy_feed=False)
+    pack2 = copy.deepcopy(pack)
+    for sc in pack2:
+        for i, u in enumerate(sc["units"]):
+            # (small units are left alone: +4 votes on a 4-vote unit would double its turnout factor)
+            if u["inFeed"] and u["votes"] >= 80 and u["kind"] in ("rep", "part", "unexpRep", "unexpNon", "blkRep", "blkNon"):
+                u["base_votes"] = u["votes"]
+                u["votes"] = u["votes"] + 4 * (1 + i % 3) if u["kind"] != "rep" else u["votes"] + 4
+    pre2, cur2, meta2 = materialise(pack2, seed, shuffle=False)
+    assert list(cur2.geographic_unit_fips) == list(cur.geographic_unit_fips)
+    for col in ("results_turnout", "results_dem", "results_gop", "percent_expected_vote"):
+        cur[col] = cur2[col].to_numpy()  # in place: every other column the first poll may have added stays
+    c, res, meta2b, _ = run_pack(pack2, estimator, seed, pis=pis, frames=(pre2, cur, meta2), copy_feed=False)
+    return trace_of(pack2, res, meta2b, estimator, pis)
